@@ -9,7 +9,7 @@
    callers that have not arrived yet. *)
 From Coq Require Import List Bool Arith.
 Import ListNotations.
-From Verif Require Import Model.ConnState Model.Close Proofs.Close.
+From Verif Require Import Model.ConnState Model.Close Proofs.Close Proofs.CloseEntry.
 
 (* All callers return.  (a) no reachable deadlock: a state in which no thread
    can take a step has every thread returned, equivalently an unfinished
@@ -117,6 +117,71 @@ Theorem c21_api_guard : forall i0 c0 ts sched n g pc ac ag a has_remote,
   entry_is_invalid_state (api_entry a (isClosed s) has_remote) = true.
 Proof. exact api_guard_reach. Qed.
 Print Assumptions c21_api_guard.
+
+(* The entry protocol: isClosed and isGracefullyClosingOrClosed are read and
+   written as a pair (one block under pc.mu).  In EVERY reachable state, for
+   every caller list and schedule:
+   (1) the caller that observed isClosed = false at its swap observed the
+       graceful flag unset in the same block;
+   (2) at most one caller registers close(isCloseDone) -- the one that saw
+       isClosed = false -- and there is one exactly when isClosed is set;
+   (3) at most one caller registers close(isGracefulCloseDone), and there is
+       one exactly when the graceful flag is set;
+   (4) only the caller of (2) is in the teardown block, which ran at most once;
+   (5) a caller waiting on a done-channel waits for ANOTHER caller that closes
+       that channel (with c21_all_return: the wait ends);
+   (6) a channel is closed exactly when its closer has returned, never twice.
+   A close() that swaps isClosed outside the critical section does not refine
+   this model: its entry is two blocks (c21_swap_outside_lock_refuted). *)
+Theorem c21_flags_updated_as_pair : forall i0 c0 ts sched,
+  c0 <> PcClosed ->
+  let s := reach i0 c0 ts sched in
+  (forall n g pc ag, nth_error (threads s) n = Some (Closer g pc false ag) ->
+     pc <> CStart -> ag = false) /\
+  (forall n m t u, nth_error (threads s) n = Some t -> closes_closeDone t = true ->
+     nth_error (threads s) m = Some u -> closes_closeDone u = true -> n = m) /\
+  (isClosed s = true <->
+     exists n t, nth_error (threads s) n = Some t /\ closes_closeDone t = true) /\
+  (forall n m t u, nth_error (threads s) n = Some t -> closes_gracefulDone t = true ->
+     nth_error (threads s) m = Some u -> closes_gracefulDone u = true -> n = m) /\
+  (gflag s = true <->
+     exists n t, nth_error (threads s) n = Some t /\ closes_gracefulDone t = true) /\
+  (forall n t, nth_error (threads s) n = Some t -> in_teardown t = true ->
+     closes_closeDone t = true) /\
+  teardowns s <= 1 /\
+  (forall n g ac ag, nth_error (threads s) n = Some (Closer g CWaitC ac ag) ->
+     exists m t, m <> n /\ nth_error (threads s) m = Some t /\ closes_closeDone t = true) /\
+  (forall n g ac ag, nth_error (threads s) n = Some (Closer g CWaitG ac ag) ->
+     exists m t, m <> n /\ nth_error (threads s) m = Some t /\ closes_gracefulDone t = true) /\
+  (closeDone s = true <->
+     exists n g ag, nth_error (threads s) n = Some (Closer g CDone false ag)) /\
+  (gracefulDone s = true <->
+     exists n ac, nth_error (threads s) n = Some (Closer true CDone ac false)) /\
+  panicked s = false.
+Proof. exact flags_pair_reach. Qed.
+Print Assumptions c21_flags_updated_as_pair.
+
+(* The atomicity of the entry block is needed.  In the variant whose entry is
+   two blocks -- isClosed.Swap(true) first, the critical section on the
+   graceful flag afterwards (Model/Close.v step_split) -- two GracefulClose
+   callers suffice: B swaps, C swaps, C passes the critical section, B passes
+   it; both register close(isGracefulCloseDone) and the second close panics.
+   (This is the interleaving the harness suite "entry" produces on the real
+   code by holding pc.mu while B arrives.) *)
+Theorem c21_swap_outside_lock_refuted :
+  exists sched,
+    let r := fst (run_split (init [TGracefulClose; TGracefulClose]) sched) in
+    panicked r = true /\ gracefulOps r = 2 /\ teardowns r = 1 /\
+    nth_error (threads r) 0 = Some (Closer true CDone false true).
+Proof. exists split_witness. exact split_entry_panics. Qed.
+Print Assumptions c21_swap_outside_lock_refuted.
+
+(* the same variant with the two entry blocks back to back is the atomic protocol *)
+Example c21_split_blocks_adjacent_ok :
+  let r := fst (run_split (init [TGracefulClose; TGracefulClose])
+                          [0; 0; 1; 1; 0; 0; 0; 0; 1; 1; 1]) in
+  panicked r = false /\ gracefulOps r = 1 /\ teardowns r = 1 /\ all_done r = true.
+Proof. exact split_adjacent_ok. Qed.
 
 (* premises are satisfiable on non-trivial runs *)
 Example c21_run_nontrivial :
